@@ -55,3 +55,20 @@ Theorem C09_disjoint_boxes_disjoint_regions :
   (c1 < a0 \/ a1 < c0 \/ d1 < b0 \/ b1 < d0)%Q ->
   forall p, (inside_eo a p && inside_eo b p)%bool = false.
 Proof. exact disjoint_boxes_disjoint_regions. Qed.
+
+(** the early termination: right of min(max x) no point belongs to the intersection, right of
+    the subject's box no point belongs to the difference (whatever the sweep has not looked at
+    there cannot matter) *)
+Theorem C09_nothing_right_of_bound_intersection :
+  forall (a b : list Slab.ring) (a0 b0 a1 b1 c0 d0 c1 d1 : Q) (p : Slab.qpt),
+  (forall r v, In r a -> In v r -> in_box a0 b0 a1 b1 v) ->
+  (forall r v, In r b -> In v r -> in_box c0 d0 c1 d1 v) ->
+  (a1 < Slab.qx p \/ c1 < Slab.qx p)%Q ->
+  (inside_eo a p && inside_eo b p)%bool = false.
+Proof. exact nothing_right_of_bound_intersection. Qed.
+
+Theorem C09_nothing_right_of_bound_difference :
+  forall (a b : list Slab.ring) (a0 b0 a1 b1 : Q) (p : Slab.qpt),
+  (forall r v, In r a -> In v r -> in_box a0 b0 a1 b1 v) ->
+  (a1 < Slab.qx p)%Q -> (inside_eo a p && negb (inside_eo b p))%bool = false.
+Proof. exact nothing_right_of_bound_difference. Qed.
